@@ -29,6 +29,8 @@ import json
 from common import *
 
 IMPORTS = "Cluster.Elect"
+ODD = 9000000000          # name ranks of the case-variant / prefix family (harness/src/lib.rs node_name)
+ODD_NAMES = [ODD + 0, ODD + 2, ODD + 4, ODD + 5, ODD + 6, ODD + 7]
 
 # tokens of one connection in protocol order: open, Name ->, <- Status, <- Challenge,
 # ClientChallenge ->, <- Ack, Ready ->, <- Ready
@@ -93,15 +95,24 @@ def gen_cases(chk, quick, factor):
                         i1 += 1
                 cases.append({"kind": "phases2/" + lname, "names": names, "conns": conns, "tokens": tokens + ["U"],
                               "stalled": []})
+    # (1b) a hub with two peers whose names are equal up to ASCII case: the second peer connects after
+    #      the first is ready, in every order and direction
+    for hub, pa, pb in ((5, ODD, ODD + 5), (ODD + 5, ODD, ODD + 2), (ODD + 2, ODD + 4, ODD + 5), (3, ODD + 6, ODD + 5)):
+        for names in ((hub, pa, pb), (hub, pb, pa)):
+            for conns in ([(1, 0), (2, 0)], [(0, 1), (0, 2)], [(1, 0), (0, 2)], [(0, 1), (2, 0)]):
+                cases.append({"kind": "casevariants", "names": names, "conns": conns, "tokens": ["o0", "F", "o1", "U"], "stalled": [1]})
+                cases.append({"kind": "casevariants", "names": names, "conns": conns, "tokens": ["o0", "o1", "U"], "stalled": []})
     # (2) random frame-level interleavings, all layouts, prefixes, staggered opens
     n = (120 if quick else 3000) * factor
     for _ in range(n):
-        if rng.random() < 0.25:
+        if rng.random() < 0.35:
             lname, conns = rng.choice(LAYOUTS3N)
-            names = tuple(rng.sample([1, 2, 3], 3))
+            # a node with two peers whose names differ only in case / are prefixes of each other
+            names = tuple(rng.sample([1, 2, 3], 3)) if rng.random() < 0.4 else tuple(rng.sample(ODD_NAMES + [5], 3))
         else:
             lname, conns = rng.choice(LAYOUTS)
-            names = rng.choice([(1, 2), (2, 1), (5, 9), (9, 5)])
+            names = rng.choice([(1, 2), (2, 1), (5, 9), (9, 5), (ODD, ODD + 5), (ODD + 5, ODD + 2), (ODD + 4, ODD + 5),
+                                (ODD + 6, ODD + 5)])
         seqs = []
         for k in range(len(conns)):
             s = [tok(k, t) for t in FULL]
